@@ -13,9 +13,9 @@ from harness.framework import Check
 
 PROP = "C18"
 FLAGS = ["q_global_on_covered", "q_prefix_without_separator", "q_path_relative_to_cwd", "q_allow_dict_unsupported",
-         "q_trailing_slash_depth"]
+         "q_trailing_slash_depth", "q_rules_toplevel_ignored", "q_rules_do_not_override_file"]
 HEADER = ("From TL Require Import Lib.Base Lib.GenTypes Model.PlacementTypes Gen.PlacementGen Model.Placement "
-          "Model.PlacementRun Actual.PlacementActual.\n")
+          "Model.PlacementSource Model.PlacementRun Actual.PlacementActual.\n")
 
 # ------------------------------------------------------------------ alphabets
 DIR_KEYS = ["src", "src/api", "src/api/v1", "sr", "src2", "tests", "tests/unit", "docs", "lib", "src/ap", "/", "app",
@@ -154,6 +154,70 @@ def gen_cases(seed, n, n_files):
 EMPTY_CFG = {"dirs": None, "gdeny": None, "gpat": None}
 
 
+def src_of(case):
+    """where the rule set of a case comes from: {"file": None | ["W", key, cfg] | ["U", cfg],
+    "rules": None | ["W", key, cfg] | ["U", cfg] | ["T", rule]}; a config dict handed to Orchestrator(config=...) is the
+    same thing as inline rules without a config file"""
+    if "src" in case:
+        return case["src"]
+    if case["via"] in ("cli-yaml", "cli-json", "seq-file", "seq-linter"):
+        return {"file": ["W", "file-placement", case["cfg"]], "rules": None}
+    w = case.get("wrap")
+    return {"file": None, "rules": ["W", w, case["cfg"]] if w else ["U", case["cfg"]]}
+
+
+def spec_cfg(src):
+    """the rule set in force according to the specification: inline rules replace the file's"""
+    r, f = src["rules"], src["file"]
+    if r is not None:
+        return {"dirs": None, "gdeny": None, "gpat": r[1]} if r[0] == "T" else r[-1]
+    return f[-1] if f is not None else EMPTY_CFG
+
+
+def src_cfgs(src):
+    out = []
+    for x in (src["file"], src["rules"]):
+        if x is not None:
+            out.append({"dirs": None, "gdeny": None, "gpat": x[1]} if x[0] == "T" else x[-1])
+    return out
+
+
+def form_dict(x):
+    """a file / rules form as the dict that is written to .thailint.yaml or passed to --rules"""
+    if x[0] == "W":
+        return {x[1]: cfg_dict(x[2])}
+    if x[0] == "U":
+        return cfg_dict(x[1])
+    return cfg_dict({"dirs": None, "gdeny": None, "gpat": x[1]})["global_patterns"]
+
+
+def gen_src(seed: int, i: int, n_files: int):
+    """config file (wrapped under either spelling / top-level keys / none) x inline rules (wrapped / top-level keys /
+    the documented {"allow": .., "deny": ..} form / none), through structure._setup_orchestrator in-process or the CLI"""
+    r = rng_for(seed, PROP, "src", i)
+    a = gen_case(seed, f"srcA{i}", n_files)
+    b = gen_case(seed, f"srcB{i}", n_files)
+    knobs = {"bad": 0.0, "adict": 0.0}
+    k = r.random()
+    ffile = None if k < 0.2 else (["W", r.choice(["file-placement", "file_placement"]), a["cfg"]] if k < 0.75 else ["U", a["cfg"]])
+    k = r.random()
+    if k < 0.1:
+        rules = None
+    elif k < 0.35:
+        rules = ["W", r.choice(["file-placement", "file_placement"]), b["cfg"]]
+    elif k < 0.7:
+        rules = ["U", b["cfg"] if r.random() < 0.93 else EMPTY_CFG]
+    else:
+        rules = ["T", _rule(r, knobs)]
+    via = "cli-src" if r.random() < 0.12 else "api-rules"
+    files = [{"cwd": "", "rest": relpath(f), "relative": via == "cli-src" or f["relative"]} for f in a["files"]
+             if f["rest"] not in (".thailint.yaml", ".thailint.json")]
+    if ffile is not None:
+        files.append({"cwd": "", "rest": ".thailint.yaml", "relative": via == "cli-src"})
+    src = {"file": ffile, "rules": rules}
+    return {"i": f"src{i}", "cfg": spec_cfg(src), "src": src, "files": files, "via": via, "wrap": None}
+
+
 def gen_seq(seed: int, i: int, n_files: int):
     """a history in ONE process for ONE project root: rule set A, then a fresh Orchestrator / Linter with rule set B, then with
     no rules, then A again - through config dicts or through a .thailint.yaml rewritten between the runs.  Every step is an
@@ -238,7 +302,7 @@ def patterns_of(cfg):
 def tabulate(case):
     """the regex oracle of the case: patterns, validity per pattern (re.compile), and per file the rows
     re.search(pattern, s, IGNORECASE) for s = project-relative path and s = path as handed over"""
-    pats = patterns_of(case["cfg"])
+    pats = list(dict.fromkeys(p for c in src_cfgs(src_of(case)) for p in patterns_of(c)))
     comp, vrow = [], []
     with warnings.catch_warnings():
         warnings.simplefilter("ignore")
@@ -282,6 +346,22 @@ def coq_cfg(cfg):
             "; c_gpat := " + coq_opt(cfg["gpat"], rule) + " |}")
 
 
+def coq_rule(rl):
+    return coq_cfg({"dirs": None, "gdeny": None, "gpat": rl}).split("c_gpat := (Some ", 1)[1].rsplit(") |}", 1)[0]
+
+
+def coq_src(src):
+    def form(x, pre):
+        if x is None:
+            return "None"
+        if x[0] == "W":
+            return f"(Some ({pre}Wrapped {s(x[1])} {coq_cfg(x[2])}))"
+        if x[0] == "U":
+            return f"(Some ({pre}Unwrapped {coq_cfg(x[1])}))"
+        return f"(Some (RToplevel {coq_rule(x[1])}))"
+    return "{| s_file := " + form(src["file"], "F") + "; s_rules := " + form(src["rules"], "R") + " |}"
+
+
 def coq_file(f):
     return f"{{| f_cwd := {s(f['cwd'])}; f_rest := {s(f['rest'])}; f_relative := {coq.coq_bool(f['relative'])} |}}"
 
@@ -302,13 +382,21 @@ def coq_case(case, impl):
     pats, vrow, rows = tabulate(case)
     runs = coq.coq_list([f"({coq_file(f)}, {coq_bools(r1)}, {coq_bools(r2)}, {coq_outcome(o)})"
                          for f, (r1, r2), o in zip(case["files"], rows, impl["outcomes"])])
-    return f"judge placement_actual {coq.coq_list([s(p) for p in pats])} {coq_bools(vrow)} {coq_cfg(case['cfg'])} {runs}"
+    return (f"judge_src placement_actual placement_source_actual {coq.coq_list([s(p) for p in pats])} {coq_bools(vrow)} "
+            f"{coq_src(src_of(case))} {runs}")
 
 
 # ------------------------------------------------------------------ implementation runner
 def _wrapped(case):
     d = cfg_dict(case["cfg"])
     return {case["wrap"]: d} if case.get("wrap") else d
+
+
+def _shown(case):
+    if "src" in case:
+        return {"config_file": case["src"]["file"] and form_dict(case["src"]["file"]),
+                "inline_rules": case["src"]["rules"] and form_dict(case["src"]["rules"])}
+    return _wrapped(case)
 
 
 def _vrep(v):
@@ -359,6 +447,13 @@ def _run_cli(case, root: Path, home: Path):
     if via == "cli-rules":
         pre = ["--project-root", str(root)]
         post = ["--rules", json.dumps(_wrapped(case))]
+    elif via == "cli-src":
+        src = case["src"]
+        pre = ["--project-root", str(root)]
+        if src["file"] is not None:
+            (root / ".thailint.yaml").write_text(yaml.safe_dump(form_dict(src["file"]), sort_keys=False, allow_unicode=True))
+        if src["rules"] is not None:
+            post = ["--rules", json.dumps(form_dict(src["rules"]))]
     elif via == "cli-yaml":
         (root / ".thailint.yaml").write_text(yaml.safe_dump(_wrapped(case), sort_keys=False, allow_unicode=True))
     else:
@@ -405,6 +500,22 @@ def _run_cli(case, root: Path, home: Path):
     return outs
 
 
+def _orch_from_source(src, root: Path):
+    """the orchestrator the `file-placement` command builds: Orchestrator(project_root) auto-loads ROOT/.thailint.yaml,
+    then cli/linters/structure.py merges the --rules JSON into its config"""
+    import yaml
+    from harness.common import ensure_repo_on_path, install_failure_tap
+    ensure_repo_on_path()
+    install_failure_tap()
+    from loguru import logger as _lg
+    _lg.disable("src")
+    from src.cli.linters import structure
+    if src["file"] is not None:
+        (root / ".thailint.yaml").write_text(yaml.safe_dump(form_dict(src["file"]), sort_keys=False, allow_unicode=True))
+    rules = json.dumps(form_dict(src["rules"])) if src["rules"] is not None else None
+    return structure._setup_orchestrator([root], None, rules, False, root)
+
+
 def _run_seq(item, root: Path):
     import yaml
     from harness.common import ensure_repo_on_path, install_failure_tap
@@ -437,13 +548,16 @@ def run_impl(case):
         _make_tree(root, case)
         if case["via"] == "api":
             return {"outcomes": _run_api(case, root)}
+        if case["via"] == "api-rules":
+            return {"outcomes": _run_api(case, root, _orch_from_source(case["src"], root))}
         home = d / "home"
         home.mkdir()
         return {"outcomes": _run_cli(case, root, home)}
 
 
 # ------------------------------------------------------------------ judging
-MODEL_FILES = [("Model", "PlacementTypes.v"), ("Gen", "PlacementGen.v"), ("Model", "Placement.v"), ("Model", "PlacementRun.v"),
+MODEL_FILES = [("Model", "PlacementTypes.v"), ("Gen", "PlacementGen.v"), ("Model", "Placement.v"), ("Model", "PlacementSource.v"),
+               ("Model", "PlacementRun.v"),
                ("Actual", "PlacementActual.v")]
 
 
@@ -513,6 +627,126 @@ def judge(cases, impls, workdir: Path, per_shard=None, th: Path | None = None):
     return verdicts
 
 
+# ------------------------------------------------------------------ shrinking of a violating input
+def _cfg_reductions(cfg):
+    """rule sets with one thing less: a directory rule, a list, a list item, a reason/message, global_deny, global_patterns"""
+    import copy
+    out = []
+
+    def emit(mut):
+        c = copy.deepcopy(cfg)
+        mut(c)
+        out.append(c)
+
+    def rule_reds(get):
+        rl = get(cfg)
+        for key in ("allow", "deny"):
+            if rl[key] is not None:
+                emit(lambda c, key=key: get(c).__setitem__(key, None))
+                for j in range(len(rl[key])):
+                    emit(lambda c, key=key, j=j: get(c)[key].pop(j))
+                    it = rl[key][j]
+                    if it[0] == "D":
+                        emit(lambda c, key=key, j=j: get(c)[key].__setitem__(j, ["S", get(c)[key][j][1]]))
+    for i in range(len(cfg["dirs"] or [])):
+        emit(lambda c, i=i: c["dirs"].pop(i))
+        rule_reds(lambda c, i=i: c["dirs"][i][1])
+    if cfg["dirs"] is not None and not cfg["dirs"]:
+        emit(lambda c: c.__setitem__("dirs", None))
+    if cfg["gdeny"] is not None:
+        emit(lambda c: c.__setitem__("gdeny", None))
+        for j in range(len(cfg["gdeny"])):
+            emit(lambda c, j=j: c["gdeny"].pop(j))
+            if cfg["gdeny"][j][0] == "D":
+                emit(lambda c, j=j: c["gdeny"].__setitem__(j, ["S", c["gdeny"][j][1]]))
+    if cfg["gpat"] is not None:
+        emit(lambda c: c.__setitem__("gpat", None))
+        rule_reds(lambda c: c["gpat"])
+    return out
+
+
+def _case_reductions(case):
+    import copy
+    out = []
+    if "seq" in case:                       # a history: drop a step other than the last, then reduce the steps' rule sets
+        for k in range(len(case["seq"]) - 1):
+            out.append({"seq": case["seq"][:k] + case["seq"][k + 1:]})
+        for k, st in enumerate(case["seq"]):
+            for c in _cfg_reductions(st["cfg"])[:12]:
+                out.append({"seq": case["seq"][:k] + [{**st, "cfg": c}] + case["seq"][k + 1:]})
+        return out
+    if "src" in case:
+        src = case["src"]
+        for part in ("file", "rules"):
+            x = src[part]
+            if x is None:
+                continue
+            out.append({**case, "src": {**src, part: None}})
+            if x[0] == "T":
+                for c in _cfg_reductions({"dirs": None, "gdeny": None, "gpat": x[1]}):
+                    if c["gpat"] is not None:
+                        out.append({**case, "src": {**src, part: ["T", c["gpat"]]}})
+            else:
+                for c in _cfg_reductions(x[-1]):
+                    out.append({**case, "src": {**src, part: x[:-1] + [c]}})
+        for o in out:
+            o["cfg"] = spec_cfg(o["src"])
+            if o["src"]["file"] is None:
+                o["files"] = [f for f in o["files"] if f["rest"] != ".thailint.yaml"] or o["files"]
+        return out
+    f = case["files"][0]
+    if f["relative"] and not f["cwd"] and case["via"] == "api":
+        out.append({**case, "files": [{**f, "relative": False}]})
+    for c in _cfg_reductions(case["cfg"]):
+        out.append({**copy.deepcopy(case), "cfg": c})
+    return out
+
+
+def shrink(case, workdir: Path, th, ref: int, budget_s: float = 90.0):
+    """greedy delta-debugging on the abstract input: keep a reduction as long as the implementation still departs from the
+    specification in a way the claimed quirk vector does not explain (judged exactly as in the main loop)"""
+    import time
+    t0 = time.time()
+
+    def failing(cands):
+        items = [c if "seq" in c else c for c in cands]
+        cs, ims = flatten(items, [run_impl(c) for c in items])
+        vers = judge(cs, ims, workdir / f"r{int((time.time() - t0) * 1000)}", per_shard=max(1, len(cs)), th=th)
+        res, pos = [], 0
+        for it in items:
+            n = len(it["seq"]) if "seq" in it else 1
+            steps = list(zip(cs[pos:pos + n], ims[pos:pos + n], vers[pos:pos + n]))
+            pos += n
+            c_, im_, v_ = steps[-1]        # the verdict that matters is that of the last step (the whole case otherwise)
+            bad = False
+            for o, bits in zip(im_["outcomes"], v_):
+                if o.get("timeout"):
+                    continue
+                spec_ok, ideal_ok, cand = bool(bits[0]), bool(bits[1]), [bool(b) for b in bits[2:]]
+                if not spec_ok and not (cand[ref] and ideal_ok):
+                    bad = True
+            res.append(bad)
+        return res
+    if not failing([case])[0]:
+        return None       # not reproducible on its own (e.g. depends on process state): keep the original
+    cur, changed = case, True
+    while changed and time.time() - t0 < budget_s:
+        changed = False
+        cands = _case_reductions(cur)
+        if cur.get("via", "").startswith("cli") or ("seq" in cur):
+            cands = cands[:10]
+        for st in range(0, len(cands), 16):
+            chunk = cands[st:st + 16]
+            res = failing(chunk)
+            hit = [c for c, b in zip(chunk, res) if b]
+            if hit:
+                cur, changed = hit[0], True
+                break
+            if time.time() - t0 > budget_s:
+                break
+    return cur if cur is not case else None
+
+
 def load_known_d(chk: Check):
     """known.d/C18.json is this property's part of known_findings.json (assembled by tools/mkmanifest.py); it is read
     directly and is authoritative, so that the check does not depend on when the shared file was last assembled"""
@@ -543,6 +777,10 @@ def corpus_cases():
         if "seq" in c:
             out.append({"seq": [{"i": f"corpus:{p.stem}.{k}", "cfg": st["cfg"], "files": c["files"], "via": c.get("via", "seq-dict"),
                                  "wrap": "file-placement"} for k, st in enumerate(c["seq"])]})
+            continue
+        if "src" in c:
+            out.append({"i": "corpus:" + p.stem, "cfg": spec_cfg(c["src"]), "src": c["src"], "files": c["files"], "via": c["via"],
+                        "wrap": None})
             continue
         out.append(finish_case({"i": "corpus:" + p.stem, "cfg": c["cfg"], "files": c["files"], "via": c.get("via", "api"),
                                 "wrap": c.get("wrap", "file-placement")}))
@@ -582,9 +820,15 @@ def run(tier: str, seed: int, replay: str | None = None) -> int:
         rc = json.loads(Path(replay).read_text())["violation"]["case"]
         items = [rc if "seq" in rc else finish_case(rc)]
     else:
-        items = corpus_cases() + [gen_seq(seed, i, 12) for i in range(n_seq)] + gen_cases(seed, n_cfg, n_files)
+        n_src = (70 if tier == "quick" else 700) * scale
+        items = (corpus_cases() + [gen_seq(seed, i, 12) for i in range(n_seq)] + [gen_src(seed, i, 10) for i in range(n_src)]
+                 + gen_cases(seed, n_cfg, n_files))
     cases, impls = flatten(items, pool_map(run_impl, items, procs=8))
-    with scratch_dir("tv-c18-coq-") as wd:
+    import contextlib
+    stack = contextlib.ExitStack()     # the scratch model directory stays alive for the shrinker
+    wd = stack.enter_context(scratch_dir("tv-c18-coq-"))
+    th_used = None
+    if True:
         verdicts = None
         failed = getattr(chk, "build_result", None).failed if getattr(chk, "build_result", None) else {}
         model_built = not any(f"theories/{sub}/{name}" in failed for sub, name in MODEL_FILES)
@@ -601,6 +845,7 @@ def run(tier: str, seed: int, replay: str | None = None) -> int:
                                  "for a failing input; the broken obligations above already fail the run")
                 try:
                     verdicts = judge(cases, impls, wd / "b", th=th)
+                    th_used = th
                 except RuntimeError as e:
                     chk.broken.append(f"Model:evaluation with the recorded generated layer failed too ({str(e)[:300]})")
         if verdicts is None:
@@ -618,15 +863,19 @@ def run(tier: str, seed: int, replay: str | None = None) -> int:
     if cands_all is not None and not cands_all[0] and any(cands_all):
         ref = cands_all.index(True)
     for case, impl, ver in zip(cases, impls, verdicts):
-        cfg = case["cfg"]
+        cfg = spec_cfg(src_of(case))
         chk.dist("via:" + case["via"])
+        if "src" in case:
+            sf, sr = case["src"]["file"], case["src"]["rules"]
+            chk.dist("source:file=" + {None: "none", "W": "section", "U": "top-level keys"}[sf and sf[0]] +
+                     ",rules=" + {None: "none", "W": "section", "U": "top-level keys", "T": "allow/deny form"}[sr and sr[0]])
         chk.dist(f"dir_rules:{len(cfg['dirs'] or [])}")
         chk.dist("global_deny:" + ("yes" if cfg["gdeny"] is not None else "no"))
         chk.dist("global_patterns:" + ("yes" if cfg["gpat"] is not None else "no"))
         bad = not all(tabulate(case)[1])
         if bad:
             chk.dist("rule sets with an invalid pattern")
-        chk.sample({"config": _wrapped(case), "via": case["via"],
+        chk.sample({"config": _shown(case), "via": case["via"],
                     "files": [{"path": relpath(f), "cwd": f["cwd"], "relative": f["relative"], "impl": o}
                               for f, o in list(zip(case["files"], impl["outcomes"]))[:6]]}, 3)
         for j, (f, o) in enumerate(zip(case["files"], impl["outcomes"])):
@@ -651,7 +900,7 @@ def run(tier: str, seed: int, replay: str | None = None) -> int:
             spec_ok, ideal_ok, cand = bool(bits[0]), bool(bits[1]), [bool(b) for b in bits[2:]]
             if spec_ok:
                 continue
-            one = case.get("history") or {"i": case["i"], "cfg": cfg, "files": [f], "via": case["via"], "wrap": case.get("wrap")}
+            one = case.get("history") or {**{k: case[k] for k in ("i", "cfg", "via", "wrap", "src") if k in case}, "files": [f]}
             info = {"reason": "reported violations differ from the allow/deny specification", "config": _wrapped(case),
                     "file": f, "impl": o, "case": one}
             if ref == 0:
@@ -659,10 +908,12 @@ def run(tier: str, seed: int, replay: str | None = None) -> int:
             else:  # a listed defect is no longer observed: the remaining listed flags explain the case
                 relevant = [FLAGS[k] for k in range(len(FLAGS)) if 1 + k != ref and ref != len(FLAGS) + 1]
             if cand[ref] and ideal_ok and not relevant and ref == 0:
-                relevant = list(FLAGS)
+                # several listed defects compensate one another on this input: no single flag changes the output,
+                # switching all of them off does (model ideal = spec); attribute to the findings still listed as known
+                relevant = [k for k in FLAGS if k in chk.known["known"]]
             if cand[ref] and ideal_ok and relevant:
                 for k in relevant:
-                    chk.known_finding(k, {"config": _wrapped(case), "file": f, "impl": o})
+                    chk.known_finding(k, {"config": _shown(case), "file": f, "impl": o})
             else:
                 info["model_actual_matches_impl"] = cand[0]
                 info["model_ideal_matches_spec"] = ideal_ok
@@ -678,4 +929,14 @@ def run(tier: str, seed: int, replay: str | None = None) -> int:
         else:
             chk.correspondence_broken({"level": "observable", "detail": "Model/Placement.v under Actual/PlacementActual.v disagrees "
                                        "with the implementation and no candidate quirk vector matches all cases"})
+    if chk.violations and "case" in chk.violations[0] and not replay:
+        try:
+            small = shrink(chk.violations[0]["case"], wd / "shrink", th_used, ref)
+            if small is not None:
+                chk.violations[0]["unshrunk_case"] = chk.violations[0]["case"]
+                chk.violations[0]["case"] = small
+                chk.violations[0]["shrunk"] = _shown(small["seq"][-1] if "seq" in small else small)
+        except Exception as e:  # noqa: BLE001 - shrinking is a convenience, never a reason to lose the finding
+            chk.notes.append(f"shrinking failed: {type(e).__name__}: {str(e)[:200]}")
+    stack.close()
     return chk.finish()
